@@ -131,5 +131,4 @@ def tmp_worktree(repo: str | Path = ".", ref: str = "HEAD") -> Iterator[Path]:
             yield Path(location)
         finally:
             subprocess.run(["git", "-C", repo, "worktree", "remove", "--force", location], stdout=subprocess.DEVNULL, check=False)
-            subprocess.run(["git", "-C", repo, "worktree", "prune"], stdout=subprocess.DEVNULL, check=False)
             subprocess.run(["git", "-C", repo, "branch", "-D", tmp_branch], stdout=subprocess.DEVNULL, check=False)
